@@ -22,7 +22,8 @@ RULE = ("(1) expression trees as in C01: every node value is rendered and re-par
         "every zero padding, near misses (difference 2, non-zero tail, inclusive max, exclusive min), pre/post/dev "
         "suffixes and epochs on either bound, and the two-range complements (-inf,V)|(V,inf), "
         "(-inf,X.Y.0)|[X.(Y+1).0,inf) with the same variations; ranges are built with & / | so that the text is "
-        "re-rendered, not inherited from parsing. Non-trivial/distinct: distinct re-rendered texts.")
+        "re-rendered, not inherited from parsing. Non-trivial/distinct: distinct re-rendered texts."
+        " (3) unions of 100-3000 ranges (pins, exclusion chains, shuffled ranges) built through operators and parser.")
 ASSUMPTIONS = [
     "equality of the re-parsed specifier is decided both by the library's == and by exact critical-point vectors",
     "only parser-reachable objects are rendered",
